@@ -371,6 +371,39 @@ pub fn shrink(scratch: &str, scn: &Scenario, v: &RawViol) -> (Scenario, RawViol)
             }
         }
     }
+    if !only_base && cur.calls[c].kind == "run" {
+        // permuted / singleton steps: drop one word at a time, re-indexing the steps' word lists
+        let mut k = 0;
+        while cur.calls[c].words.len() > 2 && k < cur.calls[c].words.len() && budget > 0 {
+            let mut cand = cur.clone();
+            cand.calls[c].words.remove(k);
+            let mut ok = true;
+            for inst in cand.insts.iter_mut() {
+                for st in inst.steps.iter_mut() {
+                    if st.call != c || st.v == "base" {
+                        continue;
+                    }
+                    if st.v == "single" && st.p[0] == k {
+                        ok = false;
+                    }
+                    st.p.retain(|&x| x != k);
+                    for x in st.p.iter_mut() {
+                        if *x > k {
+                            *x -= 1;
+                        }
+                    }
+                }
+            }
+            if ok {
+                if let Some(nv) = still_fails(scratch, &cand, v.clause, &mut budget) {
+                    cur = cand;
+                    curv = nv;
+                    continue;
+                }
+            }
+            k += 1;
+        }
+    }
     // drop groups, then rules
     let mut gi = 0;
     while gi < cur.calls[c].rules.len() && budget > 0 {
@@ -607,11 +640,11 @@ fn build_inst(seed: u64, block: u64, j: usize, calls: &[usize], ncalls_words: &d
         }
         let (is_run, nw) = ncalls_words(c);
         if is_run && nw >= 2 {
-            if r.chance(1, 3) {
+            if r.chance(1, 2) {
                 let p = r.perm(nw);
                 steps.push(Step { call: c, thread: r.below(threads), v: "perm".into(), p });
             }
-            if r.chance(1, 3) {
+            if r.chance(1, 2) {
                 let i = r.below(nw);
                 steps.push(Step { call: c, thread: r.below(threads), v: "single".into(), p: vec![i] });
             }
